@@ -396,11 +396,16 @@ def replay_group_shapes(cex):
         lb = SubtomogramLoader(tomo, Molecules(rng.uniform(8, 15, size=(4, 3))), order=1, output_shape=(6, 5, 4))
         bad = {}
         try:
-            avg = LoaderGroup([("a", la), ("b", lb)]).average()
+            grp = LoaderGroup([("a", la), ("b", lb)])
+            avg = grp.average()
+            halves = grp.average_split(seed=0)
             for k, ld in (("a", la), ("b", lb)):
                 want = ld.average()
                 if tuple(avg[k].shape) != tuple(want.shape) or not np.allclose(avg[k], want, atol=1e-5):
                     bad[k] = {"group_average_shape": list(avg[k].shape), "own_loader_average_shape": list(want.shape)}
+                wh = ld.average_split(seed=0)
+                if tuple(halves[k].shape) != tuple(wh.shape):
+                    bad[k + " (average_split)"] = {"group_half_maps_shape": list(halves[k].shape), "own_loader_half_maps_shape": list(wh.shape)}
         except Exception as e:
             bad["raised"] = repr(e)[:160]
         return len(bad) > 0, {"problems": bad}
@@ -422,7 +427,10 @@ def sec_group_shapes(rec, patches=None):
         def run():
             la, lb = SL(_mk(L, 2), va, shape=(1, 1, 2)), SL(_mk(L, 3), vb, shape=(1, 2, 1))
             grp = G.LoaderGroup([("a", la), ("b", lb)])
-            return grp.average(), la.asked_shapes, lb.asked_shapes
+            avg = grp.average()
+            n_a, n_b = len(la.asked_shapes), len(lb.asked_shapes)
+            grp.average_split(seed=1)
+            return avg, la.asked_shapes[n_a:], lb.asked_shapes[n_b:]
 
         for pi, pth in enumerate(explore(run, max_paths=40)):
             if not pth.ok:
@@ -430,6 +438,12 @@ def sec_group_shapes(rec, patches=None):
                 rec.fact(f"group-shapes/path{pi}/runs", False, key="C09/group/raises", detail={"exc": repr(pth.exc)[:300], **det}, reproduced=ok)
                 continue
             avg, aa, ab = pth.result
+            # average_split: every group's stack is built with that group's own default shape (what the loader is asked for)
+            for k, asked, shp in (("a", aa, (1, 1, 2)), ("b", ab, (1, 2, 1))):
+                oks = len(asked) >= 1 and all(x is not None and tuple(int(v) for v in x) == shp for x in asked)
+                okr, det = (True, {}) if oks else replay_group_shapes({})
+                rec.fact(f"group-shapes/path{pi}/average_split[{k}] builds its stack with its own loader's default shape", oks, key="C09/group/own-shape-split", detail={"asked": [list(x) if x is not None else None for x in asked], "want": list(shp), **det},
+                         reproduced=okr)
             for k, vals_, shp in (("a", va, (1, 1, 2)), ("b", vb, (1, 2, 1))):
                 got = tuple(np.shape(avg[k]))
                 oks = got == shp
@@ -734,6 +748,12 @@ def sections(tier):
 _LB = "acryo.loader._base"
 _MI = "acryo.loader._misc"
 MUTANTS = [
+    ("group:average_split-rebinds-output_shape (defect fixed by 'fix: LoaderGroup.average_split uses each loader's own default output shape')", "checks.c09", "sec_group_shapes", {},
+     {"acryo.loader._group": [("            _output_shape = loader._get_output_shape(output_shape)\n            dask_array = loader.construct_dask(output_shape=_output_shape, backend=xp)",
+                               "            output_shape = loader._get_output_shape(output_shape)\n            dask_array = loader.construct_dask(output_shape=output_shape, backend=xp)")]}),
+    ("group:average-uses-the-first-loader's-shape (seeded change C09_12)", "checks.c09", "sec_group_shapes", {},
+     {"acryo.loader._group": [("            _output_shape = loader._get_output_shape(output_shape)\n            dsk = loader.construct_dask(_output_shape, backend=xp)",
+                               "            output_shape = loader._get_output_shape(output_shape)\n            dsk = loader.construct_dask(output_shape, backend=xp)")]}),
     ("split:halves-from-different-stacks", "checks.c09", "sec_split", {"n": 3}, {_LB: [("                    dsk[ind1].rechunk(chunksize).mean(axis=0),  # type: ignore", "                    dsk[ind0].rechunk(chunksize).mean(axis=0),  # type: ignore")]}),
     ("splitter:overlapping", "checks.c09", "sec_seed", {}, {_MI: [("    indices1[sl] = False\n", "    indices1[sl[1:]] = False\n")]}),
     ("splitter:empty-half", "checks.c09", "sec_seed", {}, {_MI: [("    sl = rng.choice(np.arange(nmole), nmole // 2).tolist()", "    sl = rng.choice(np.arange(nmole), nmole).tolist()")]}),
